@@ -360,7 +360,8 @@ def _optdepth_to_depth(I, v):
     return U.ctor('Depth', 'Fin')(U.acc('OptDepth', 'SomeDepth', 'v')(v))
 
 
-U.coerce_hooks = {('OptDepth', 'Depth'): _optdepth_to_depth}
+U.coerce_hooks = {('OptDepth', 'Depth'): _optdepth_to_depth,
+                  ('Int', 'Depth'): lambda I, v: U.ctor('Depth', 'Fin')(v)}        # an int used as depth_left
 U.consts['GHOST_SET'] = z3.Const('GHOST_SET', U.sort('SetRef'))
 U.consts['GHOST_MAP'] = z3.Const('GHOST_MAP', U.sort('MapVal'))
 U.consts['Inf'] = U.ctor('Depth', 'Inf')()
